@@ -85,7 +85,10 @@ def cases(draw, tier):
     return {"forest": forest, "test": test, "kernel": kernel, "radius": radius, "kernel_args": kargs,
             "orientation": draw(st.sampled_from(["before", "after", "symmetric", "directional"])),
             "prune": prune, "mask": mask, "nullify": draw(st.booleans()) if mask else False,
-            "storage": draw(st.sampled_from(["csr", "csr", "lil", "lil_shared"]))}
+            "storage": draw(st.sampled_from(["csr", "csr", "lil", "lil_shared"])),
+            "adj_dtype": draw(st.sampled_from(["float64", "float64", "int64", "bool"])),
+            # history inside one process: another estimator with other kernel arguments is fitted first
+            "prior_kernel_args": draw(st.sampled_from([None, None, {"power": 0.5}, {"offset": 1}, {"normalize": True}]))}
 
 
 # ------------------------------------------------------------------------------------------------ reference
@@ -154,7 +157,7 @@ def orient(np, R, orientation):
     return np.hstack([R.T, R])
 
 
-def to_lib(L, forest, storage):
+def to_lib(L, forest, storage, dtype="float64"):
     np, sp = L["np"], L["sp"]
     out = []
     shared = {}
@@ -162,7 +165,7 @@ def to_lib(L, forest, storage):
         n = len(t["parents"])
         rows = [p for p in t["parents"] if p >= 0]
         cols = [v for v, p in enumerate(t["parents"]) if p >= 0]
-        A = sp.csr_matrix((np.ones(len(rows)), (rows, cols)), shape=(n, n))
+        A = sp.csr_matrix((np.ones(len(rows), dtype=np.dtype(dtype)), (rows, cols)), shape=(n, n))
         if storage == "lil":
             A = A.tolil()
         elif storage == "lil_shared":
@@ -192,8 +195,17 @@ def check(case):
     def make(orientation):
         return L["Tree"](kernel_function=case["kernel"], kernel_args=dict(ka), window_radius=case["radius"],
                          window_orientation=orientation, mask_string=mask, nullify_mask=case["nullify"], **kw)
+    adt = case.get("adj_dtype", "float64")
+    r.label("adjacency:" + adt)
+    if case.get("prior_kernel_args"):
+        pk = dict(case["prior_kernel_args"])
+        if "power" not in pk or case["kernel"] == "geometric" or True:
+            prior_kernel = "geometric" if "power" in pk else case["kernel"]
+            prior = L["Tree"](kernel_function=prior_kernel, kernel_args=pk, window_radius=case["radius"], window_orientation="after")
+            call(prior.fit, to_lib(L, forest, "csr", adt))
+            r.label("prior-estimator")
     est = make(case["orientation"])
-    X = to_lib(L, forest, case["storage"])
+    X = to_lib(L, forest, case["storage"], adt)
     s, M = call(est.fit_transform, X)
     docs = [t["labels"] for t in forest]
     spec = {("min_document_occurrences" if k == "min_tree_occurrences" else "max_document_occurrences" if k == "max_tree_occurrences" else
@@ -234,7 +246,7 @@ def check(case):
     mats = {}
     for o in ("after", "before"):
         e2 = make(o)
-        s2, m2 = call(e2.fit_transform, to_lib(L, forest, case["storage"]))
+        s2, m2 = call(e2.fit_transform, to_lib(L, forest, case["storage"], adt))
         if s2 == "ok":
             mats[o] = np.asarray(m2.todense())
     if len(mats) == 2 and mats["after"].shape == mats["before"].shape[::-1]:
@@ -254,7 +266,7 @@ def check(case):
         if cold != want_cols:
             r.fail("column-labels", site + ".fit", "column_label_dictionary_ %r, expected %r" % (cold, want_cols))
     # transform of another forest in the fitted vocabulary
-    s, T = call(est.transform, to_lib(L, case["test"], case["storage"]))
+    s, T = call(est.transform, to_lib(L, case["test"], case["storage"], adt))
     if s == "exc":
         r.fail(exc_kind(T), site + ".transform", exc_detail(T))
     else:
